@@ -370,6 +370,7 @@ func c11(r *core.Run) {
 		})
 		r.Floor("C11.G3", "lock-free success returns of put", n, 1)
 	}
+	c11GetSide(r)
 }
 
 func c12(r *core.Run) {
